@@ -32,29 +32,6 @@ VOCAB = [
     ("(**)-(*)", 0),
 ]
 
-RULE = ("E1: every document with <= n nodes (n=3 quick, 4 thorough; the C01 "
-        "alphabet incl. empty containers, nulls, mixed lists, int keys, "
-        "sets) plus a 64-document family of hashes holding hashes/lists x every path of <= 2 segments from a %d-item vocabulary "
-        "(negative/out-of-range indexes and implicit indexes, slices past "
-        "both ends, invalid regular expressions, container-literal terms, "
-        "all keyword searches, collectors) in slash notation; entry points: "
-        "required query for every pair, exists() and the optional query "
-        "(on a freshly loaded copy) on a seed-offset stride of pairs. E2: "
-        "Hypothesis documents (with anchors) x random 1-4 segment paths "
-        "from the same vocabulary. Non-trivial = the path contains a "
-        "bracketed/keyword/collector/wildcard segment and the document is a "
-        "container; distinct by (document, path, entry)." % len(VOCAB))
-ASSUMPTIONS = [
-    "paths are restricted to text the parser accepts (invalid path text is "
-    "C14's domain); a YAMLPathException from the parser is an allowed "
-    "outcome",
-]
-EXHAUSTIVE = {"quick": True, "thorough": True}
-SHARD_BUDGET_S = {"quick": 100, "thorough": 2400}
-HARD_TIMEOUT_S = {"quick": 900, "thorough": 7200}
-
-_PATHS = None
-
 # -- grammar grid: degenerate keyword parameters and search operands ---------
 KEYWORDS = ["has_child", "name", "max", "min", "parent", "unique", "distinct"]
 PARAMS = ["", ",", "a", "a,", ",a", "a,b", " ", "''", '""', "&", "&a", "&x",
@@ -72,7 +49,48 @@ REGEX_TERMS = ["/a/", "/(/", "/", "//", "/[/", "/a", "a", "", "/*/", "/(?P<x/",
                "/\\/", "/a/b/", ",a,", "|(|", "/(a|)/", "/^$/", "/./",
                "/(?i)A/", "/a{2,1}/", "/\\1/"]
 PREFIXES = ["", "/a", "/*"]
+# key names that are literal syntax for something else in Python or YAML
+KEYTEXTS = ["{}", "{1}", "{1: 2}", "\\[\\]", "\\[1, 2\\]", "'[1, 2]'",
+            "\\(\\)", "\\(1,\\)", "()", "1.5", "-1.5", "1e3", "1e999",
+            "nan", "inf", "True", "true", "False", "None", "null", "~", "1j",
+            "0x10", "0o7", "1_0", "b'a'", "...", "''", '""', "' '", "\\ ",
+            "-0", "+1", "00", "é", "١", "²",
+            "{", "}", "%s", "{0}", "a\\.b", "\\&a", "&a", "!a", "*a", "a*",
+            "**a", "a**"]
 
+
+RULE = ("E1: every document with <= n nodes (n=3 quick, 4 thorough; the C01 "
+        "alphabet incl. empty containers, nulls, mixed lists, int keys, "
+        "sets) plus a 64-document family of hashes holding hashes/lists x every path of <= 2 segments from a %d-item vocabulary "
+        "(negative/out-of-range indexes and implicit indexes, slices past "
+        "both ends, invalid regular expressions, container-literal terms, "
+        "all keyword searches, collectors) in slash notation; a grammar grid "
+        "of every keyword x inversion x %d parameter texts (empty, lone "
+        "comma, anchors, numbers, non-ASCII digits), %d attributes x 17 "
+        "operators x %d terms / %d regular expressions, and %d key names "
+        "that are literal syntax in Python/YAML ({}, [1, 2], 1e999, 1j, "
+        "None, ...) over 75 documents; entry points: "
+        "required query for every pair, exists() and the optional query "
+        "(on a freshly loaded copy) on a seed-offset stride of pairs. E2: "
+        "Hypothesis documents (with anchors) x random 1-4 segment paths "
+        "from the same vocabulary. Non-trivial = the path contains a "
+        "bracketed/keyword/collector/wildcard segment and the document is a "
+        "container; distinct by (document, path, entry)." % (
+            len(VOCAB), len(PARAMS), len(ATTRS), len(TERMS),
+            len(REGEX_TERMS), len(KEYTEXTS)))
+ASSUMPTIONS = [
+    "paths are restricted to text the parser accepts (invalid path text is "
+    "C14's domain); a YAMLPathException from the parser is an allowed "
+    "outcome",
+    "index-like names of many digits are not given to the optional query: "
+    "padding a sequence up to the named index is the documented creation "
+    "behaviour and its cost is proportional to the index",
+]
+EXHAUSTIVE = {"quick": True, "thorough": True}
+SHARD_BUDGET_S = {"quick": 100, "thorough": 2400}
+HARD_TIMEOUT_S = {"quick": 900, "thorough": 7200}
+
+_PATHS = None
 
 def grammar_paths():
     out = []
@@ -83,6 +101,10 @@ def grammar_paths():
                     out.append("%s[%s%s(%s)]" % (pre or "/", inv, kw, prm)
                                if not pre else
                                "%s[%s%s(%s)]" % (pre, inv, kw, prm))
+    for pre in ("/", "/a/", "/*/", "/**/", "/[0]/", "/a/b/"):
+        for key in KEYTEXTS:
+            out.append(pre + key)
+            out.append(pre + key + "/a")
     for pre in PREFIXES[:2]:
         for attr in ATTRS:
             for op in OPERATORS:
@@ -258,7 +280,8 @@ def run_shard(shard):
                                             "entry": entry})
         for ptext in paths:
             res.label("grammar:" + ("keyword" if ptext.endswith(")]")
-                                    else "search"))
+                                    else "search" if ptext.endswith("]")
+                                    else "key-text"))
     else:
         _run_hyp(shard, res, dl)
     return res
